@@ -24,6 +24,11 @@ Named(seq) == [j \in 1..Len(seq) |-> [seq[j] EXCEPT !.name = IF j = 1 THEN "r1" 
 MC_RuleSets == {Named(<<a>>) : a \in Universe} \cup {Named(<<a, b>>) : a \in Universe, b \in Universe}
                \cup {Named(<<a, b, c>>) : a \in {x \in Universe : x.hasstate}, b \in {x \in Universe : x.hasstate}, c \in {x \in Universe : x.hasstate}}
 
+\* rules added later: a wildcard pattern, a literal pattern, a state rule
+MC_Extra == { R(<< <<"*", "c">> >>, FALSE, <<>>, <<>>, <<>>),
+              R(<< <<"b", "c">> >>, FALSE, <<>>, <<>>, <<"r1">>),
+              R(<< <<"a", "*">> >>, TRUE, << MAny("k") >>, <<>>, <<>>) }
+
 V(t, nn, ss, cs) == [t |-> t, n |-> nn, s |-> ss, cs |-> cs]
 MC_Events == {
   [name |-> "E1", kind |-> <<"a", "b">>, state |-> <<>>],
